@@ -237,6 +237,9 @@ theorem stepPool_invG {c : Cfg} {s t : St} {a : Act} (hs : 1 ≤ c.standby) (hm 
     step_split h
     · exact ⟨hi.noX, hi.spE, hi.spL, fun _ _ => Or.inr (Or.inl rfl)⟩
     · exact ⟨hi.noX, hi.spE, hi.spL, hi.good⟩
+  case setHandler on =>
+    injection h with h; subst h
+    exact ⟨hi.noX, hi.spE, hi.spL, hi.good⟩
   all_goals simp at h
 
 /-- Good survives a submission changing its own entry, as long as that entry was not the token poster -/
